@@ -315,7 +315,9 @@ def shifted_lognormal(res):
     from scipy import stats
     from ffpack import rpm
     for (s1, l1, c1), (s2, l2, c2), rho in (((0.5, 10.0, 1.0), (0.5, 0.0, 1.0), 0.6), ((0.25, -2.0, 2.0), (1.0, 5.0, 1.0), 0.3),
-                                            ((0.5, 10.0, 1.0), (0.75, 3.0, 0.5), -0.4)):
+                                            ((0.5, 10.0, 1.0), (0.75, 3.0, 0.5), -0.4),
+                                            # strongly skewed pairs (coefficient of variation above 5)
+                                            ((2.0, 0.0, 1.0), (2.0, 0.0, 1.0), 0.5), ((1.8, 0.0, 1.0), (1.8, 0.0, 2.0), 0.5), ((1.9, 0.0, 1.0), (1.9, 0.0, 1.0), 0.7)):
         case = {'marginals': [['lognorm', s1, 'loc', l1, 'scale', c1], ['lognorm', s2, 'loc', l2, 'scale', c2]], 'corr': rho}
         res.evaluations += 1
         res.nontrivial.add(json.dumps(case))
